@@ -41,7 +41,9 @@ pub struct Scn {
 pub struct B4;
 
 fn pw(rng: &mut Rng) -> String {
-    match rng.below(12) {
+    match rng.below(14) {
+        12 => "y".repeat(199) + "z",
+        13 => "y".repeat(128),
         8 => "ends with newline\n".into(),
         9 => "crlf\r\n".into(),
         10 => "trailing space ".into(),
@@ -82,7 +84,11 @@ impl Family for B4 {
         &["C16", "C15", "C07"]
     }
     fn budget(&self, tier: Tier, p: &str) -> u64 {
-        let q = if p == "C16" { 100 } else { 20 };
+        let q = match p {
+            "C16" => 100,
+            "C15" => 60,
+            _ => 20,
+        };
         q * match tier {
             Tier::Quick => 1,
             Tier::Thorough => 15,
@@ -107,11 +113,13 @@ impl Family for B4 {
                 2 => steps.push(Step::TryOldPassword(rng.usize_below(history.len() - 1))),
                 3 => steps.push(Step::ChangePassWrongOld(format!("{}-wrong", history[history.len() - 1]))),
                 4 => steps.push(Step::Damaged(rng.below(672) as u32, rng.below(4) as u8)),
-                5 => steps.push(Step::TryVariantPassword(rng.below(5) as u8)),
+                5 => steps.push(Step::TryVariantPassword(rng.below(7) as u8)),
                 _ => {}
             }
         }
-        Scn { start_generated: rng.chance(1, 2), first_password, steps, seed: rng.next_u64(), use_at_end: rng.chance(1, 3), tty_stdout: rng.chance(1, 4) }
+        // the newest string is put to use in a keyring at the end - always when its password is the empty one
+        let use_at_end = rng.chance(1, 3) || history.last().map(|p| p.is_empty()).unwrap_or(false);
+        Scn { start_generated: rng.chance(1, 2), first_password, steps, seed: rng.next_u64(), use_at_end, tty_stdout: rng.chance(1, 4) }
     }
     fn execute(&self, s: &Scn) -> RunOut {
         let mut out = RunOut::default();
@@ -190,6 +198,10 @@ impl Family for B4 {
                             }
                             match rk::parse_locked(&new_str) {
                                 Some((salt, _)) => {
+                                    if salt == [0u8; 32] {
+                                        out.violations.push(viol("C07", "cli_salt_not_random", format!("step {}: the salt chosen by `key change-pass` is all zero", i)));
+                                        out.violations.push(viol("C16", "salt_reused", format!("step {}: the salt is the constant 00..00", i)));
+                                    }
                                     if salts.contains(&salt.to_vec()) {
                                         out.violations.push(viol("C16", "salt_reused", format!("step {}: the password change reused the salt {}", i, to_hex(&salt[..8]))));
                                         out.violations.push(viol("C07", "cli_change_pass_salt_reused", format!("step {}: `key change-pass` did not draw a fresh salt ({} seen before)", i, to_hex(&salt[..8]))));
@@ -235,6 +247,9 @@ impl Family for B4 {
                         1 => format!("{} ", cur_pw),
                         2 => cur_pw.trim_end().to_string(),
                         3 => format!("{}\r\n", cur_pw),
+                        // a long password cut to a buffer size is a different password
+                        5 if cur_pw.len() > 128 => cur_pw.chars().take(128).collect::<String>(),
+                        6 if cur_pw.len() > 64 => format!("{}DIFFERENT-TAIL", cur_pw.chars().take(cur_pw.chars().count().saturating_sub(8)).collect::<String>()),
                         _ => cur_pw.trim().to_string(),
                     };
                     if variant == cur_pw {
@@ -292,6 +307,7 @@ impl Family for B4 {
             let dec = run_inv(Invocation::new(&["decrypt", "m.ktl", "-t", "me-myself-0001", "-o", "m.out", "-k", "kr.txt", "--env-pass"]).env("KESTREL_PASSWORD", &pwn), &mut th, &mut all_output);
             if enc.status != Status::Exit(0) || dec.status != Status::Exit(0) || sb.read("m.out").as_deref() != Some(b"after the password changes") {
                 out.violations.push(viol("C16", "newest_string_not_usable", format!("enc {:?} dec {:?}: {} {}", enc.status, dec.status, enc.stderr_text(), dec.stderr_text())));
+                out.violations.push(viol("C15", "cli_key_does_not_unlock_with_its_password", format!("a key locked under {:?} cannot be used by encrypt/decrypt with that password: {} {}", pwn, enc.stderr_text().chars().take(120).collect::<String>(), dec.stderr_text().chars().take(120).collect::<String>())));
             }
         }
         // the raw private key never appears in any output or file
